@@ -1,6 +1,7 @@
 """C17 — sent application messages are stored exactly as transmitted."""
 from ..facts import Program, AnalysisBroken
 from .. import q
+from . import c18, c27
 
 CLAIM = {
     'text': 'Static must/may analysis of Session::send_process: the bytes persisted for a sent application message derive '
@@ -17,7 +18,7 @@ EXPLANATION = (
     "persister's put(seqnum, bytes) originate only from the output of Message::encode of the same call "
     "(reaching definitions followed through locals and conversions); R17.2 that put is reachable on both "
     "branches of the end-of-batch test, is dominated by the not-PossDup and not-admin decisions, is keyed by "
-    "the send counter and precedes the counter's increment. NOT decided: that the stored bytes equal the wire "
+    "the send counter and precedes the counter's increment. R17.3 the persisters seed the retransmission context with the session's next send number, so a number already used for a stored message is not handed out again after a replay (rule of C18 R18.6); R17.4 the file store records a message's offset as lseek(_fod, 0, SEEK_END) immediately before writing it (rule of C27). NOT decided: that the stored bytes equal the wire "
     "bytes for a concrete send history; concurrency (see C25).")
 ASSUMPTIONS = ['Message::encode(char**) sets *hmsg_store to the start of the encoded message on every normal path '
                '(checked structurally under C02)']
@@ -32,6 +33,18 @@ def run(ctx):
     prog = Program(UNITS)
     ctx.units.update(UNITS)
     rules(ctx, prog, 'R17.1', 'R17.2')
+    # what is stored under a number stays the transmitted message: the number is not reused after a replay (R17.3 = C18 R18.6), and the file store
+    # indexes each record where its bytes really went (R17.4 = C27 R27.3 append rule)
+    prog2 = Program(UNITS + ['runtime/persist.cpp', 'runtime/filepersist.cpp'])
+    ctx.units.update(['runtime/persist.cpp', 'runtime/filepersist.cpp'])
+    c18.retrans_seed_rule(ctx, prog2, 'R17.3')
+    cand = [f for f in prog2.fns('FIX8::FilePersister::put') if 'basic_string' in f.sig or 'f8String' in f.sig]
+    ctx.need(len(cand) == 1, 'FilePersister::put(seq, bytes) not found')
+    dw = [c for c in cand[0].calls() if c.callee_qp == 'write' and c27._fd_is(c.args[0], '_fod')]
+    ctx.need(len(dw) == 1, 'FilePersister::put: data write not found')
+    c27.append_rule(ctx, cand[0], dw[0], 'R17.4')
+    ctx.floor('R17.3', 2)
+    ctx.floor('R17.4', 1)
     ctx.floor('R17.1', 1)
     ctx.floor('R17.2', 5)
 
